@@ -391,7 +391,10 @@ def format_files(
                 (
                     (filename, filename_preserve[filename], safe)
                     for filename in files_to_format
-                )
+                ),
+                # One task per file: with the default chunking an exception in one file also skips
+                # the rest of its chunk, so which other files got formatted depended on n_cores.
+                chunksize=1,
             )
             filename_changes = dict(zip(files_to_format, results))
             for folder, files_in_folder in folder_contents.items():
